@@ -162,7 +162,9 @@ class LinFacts:
                 c = -g[0][x]
                 m = -(-c // (-q))      # ceil(c / -q)
             else:
-                if f[1] <= 0:
+                # only the constant of g is negative: subtracting a fact whose own constant is negative (x - c >= 0, c > 0)
+                # raises it; the remainder must then be non-negative in its atoms
+                if f[1] >= 0:
                     continue
                 m = 1
             if (i, m) in used or m > (1 << 20):
